@@ -73,6 +73,13 @@ def run(ctx):
     ctx.model_check("C02", cfg_text="SPECIFICATION Spec\nINVARIANT SpellingInvariant\nINVARIANT OutputIsCanonical\n" + _cfg(depth), env=ENV,
                     label="S:C02 spelling machine depth<=%d on the reference pipeline" % depth)
     cases = gen_cases(ctx, depth)
+    # idempotence and the mode equations also on the raw grammar strings of C01 (malformed escapes, raw delimiters ...): each is its own base
+    from harness.checks import c01
+    data, _ = ctx.generate("Gen_C01", cfg_text="INIT GenInit\nNEXT GenNext\n" + c01._cfg(0, "{1}", " GLen = %d\n SN = 10\n RLen = {4}\n RN = %d\n FocusIdx = {1, 3, 14, 17, 18, 27, 35, 36}\n FLen = %d\n FocusCtx = {4, 9}\n" % (2, ctx.pick(5, 300), ctx.pick(3, 4))),
+                           env=c01.ENV, heap="12g", out="gen_c02_raw.json")
+    raw = sorted(tuple(x) for x in data["focus"])
+    ctx.extra["raw_grammar_strings"] = len(raw)
+    cases += [{"b": 1000 + i, "plain": True, "x": list(x)} for i, x in enumerate(raw)]
     failing = judge(ctx, cases)
     ctx.traces_validated = len(cases)
     ctx.exhaustive = True
